@@ -24,6 +24,7 @@ RULE = ("scenario 'idle': drawn config with the property's precondition built in
         "unanswered connect DISCONNECTED in (T, T + 2 frames] with the callback called once with False; no setter raises. "
         "non-trivial = non-default configuration and (idle >= 20 keep-alive periods, or a cut, or a post-connect setter); "
         "distinct by (config, setter order, cut class).")
+RULE += (" " + "Round-8 addition: in a third of the cases the application's connect callback raises after noting its argument (answered and unanswered attempts).")
 ASSUMPTIONS = [
     "the network is loss-free with a fixed small delay while 'working' (loss is C05/C07's subject)",
     "client frame spacing <= server tick spacing (queue-model soundness, DESIGN 3/C05 S)",
